@@ -195,6 +195,54 @@ def run_shard(args):
                 elif res.files_after["test_a.py"] != res.files_before["test_a.py"] and not (op == "getitem" and "snapshot({})['k']" in res.files_after["test_a.py"].decode()):
                     # (an empty sub-snapshot dict `{}` may be created: the rejected value itself is not recorded)
                     out["violations"].append({"kind": "unequal-deepcopy-value-written", "detail": {"class": name, "op": op, "F": list(F), "new": res.files_after["test_a.py"].decode()[-300:]}, "witness": wit, "finding": None})
+    # ---- real sessions: snapshots created during collection (module level, parametrize arguments) and compared inside
+    # ordinary, parametrised and xfail-marked tests (which run in a switched-off local state); the object is mutated afterwards
+    from .. import session
+
+    REAL = [["--inline-snapshot=create"], ["--inline-snapshot=create,fix,trim,update"], ["--inline-snapshot=review"]]
+    nreal = {"quick": 1 if args.shard < len(REAL) else 0, "thorough": 3}[tier]
+    for c in range(nreal):
+        rng = random.Random(f"{args.seed}/{PROP}/session/{args.shard}/{c}")
+        fargs = REAL[(args.shard + c) % len(REAL)]
+        a, b, n1, n2 = rng.sample(range(10, 99), 4)
+        src = (
+            "import pytest\nfrom inline_snapshot import snapshot\n" + BAD_CLASSES + "\n"
+            "S_PLAIN = snapshot()\nS_XFAIL = snapshot()\nS_BAD = snapshot()\nS_LE = snapshot()\n"
+            f"PARAMS = [({n1}, snapshot()), ({n2}, snapshot())]\n\n\n"
+            f"def test_plain():\n    v = [{a}, [{b}]]\n    assert v == S_PLAIN\n    v[1].append('late')\n    v.append('late')\n\n\n"
+            f"@pytest.mark.xfail\ndef test_xfail():\n    v = {{'k': [{a}]}}\n    assert v == S_XFAIL\n    v['k'].append('late')\n    assert False\n\n\n"
+            "@pytest.mark.xfail\ndef test_xfail_bad_copy():\n    assert BadCopy(1) == S_BAD\n\n\n"
+            f"@pytest.mark.xfail\ndef test_xfail_bound():\n    v = [{a}, [{b}]]\n    assert v <= S_LE\n    v[1].append(0)\n    w = [{a}, [{b}, 1]]\n    assert w <= S_LE\n    w[1].append('late')\n    raise ValueError('expected failure')\n\n\n"
+            "@pytest.mark.parametrize('n,s', PARAMS)\ndef test_param(n, s):\n    v = (n, [n])\n    assert v == s\n    v[1].append('late')\n"
+        )
+        proj = session.Project({"test_a.py": src}, with_vp=False)
+        try:
+            r = session.run_session(proj, fargs, env={"FORCE_COLOR": "true"} if "review" in fargs[0] else None, stdin=b"y\ny\ny\ny\n" if "review" in fargs[0] else None)
+        finally:
+            proj.close()
+        C["real_sessions"] = C.get("real_sessions", 0) + 1
+        wit = {"files": {"test_a.py": src}, "args": fargs}
+        if any(e["kind"] == "sessionfinish_exception" for e in r.audit):
+            out["violations"].append({"kind": "session-end-raised", "detail": {"events": [e for e in r.audit if e["kind"] == "sessionfinish_exception"]}, "witness": wit, "finding": None})
+            continue
+        new = r.after.get("test_a.py", b"").decode()
+        try:
+            new_args, _ = program.outer_snapshot_args(new)
+        except SyntaxError as e:
+            out["violations"].append({"kind": "unparsable", "detail": {"error": str(e), "new": new[:1500]}, "witness": wit, "finding": None})
+            continue
+        # value at comparison time, or nothing at all (None) where the test is xfail-marked / the copy is rejected
+        want = [("module-level/plain-test", [[a, [b]]]), ("module-level/xfail-test", [None, {"k": [a]}]), ("module-level/xfail-test/unequal-copy", [None]), ("module-level/xfail-test/bound", [None, [a, [b, 1]]]), ("parametrize-argument-1", [(n1, [n1])]), ("parametrize-argument-2", [(n2, [n2])])]
+        if len(new_args) != len(want):
+            out["violations"].append({"kind": "site-count-changed", "detail": {"new": new[:1500]}, "witness": wit, "finding": None})
+            continue
+        for (label, allowed), na in zip(want, new_args):
+            out["evaluations"] += 1
+            C["real_collection_time_sites"] = C.get("real_collection_time_sites", 0) + 1
+            out["signatures"].add(f"real-session/{label}/{fargs[0]}")
+            got = None if na is None else eval(na, {})
+            if not any(got == x and type(got) is type(x) for x in allowed):
+                out["violations"].append({"kind": "written-value-is-not-the-value-at-comparison-time(real session)", "detail": {"site": label, "args": fargs, "written": na, "allowed": [repr(x) for x in allowed], "new_head": new[-900:]}, "witness": wit, "finding": None})
     out["signatures"] = sorted(out["signatures"])
     return out
 
